@@ -160,6 +160,20 @@ def main():
     inline = [c for c in cases if c["mode"] == "inline"]
     res_inline = run_cases("harness.drv_bus:run_case", inline, jobs=args.jobs, timeout=120)
     res_thr = run_cases("harness.drv_bus:run_case", threaded, jobs=4, timeout=180)
+    # a real-time time-out under machine load says nothing about the library: such cases are run
+    # again one at a time (twice at most) before the run is declared a machinery failure
+    for attempt in range(2):
+        again = [i for i, r in enumerate(res_thr) if r.get("machinery") or r.get("hang")]
+        if not again:
+            break
+        redo = run_cases("harness.drv_bus:run_case", [threaded[i] for i in again], jobs=1, timeout=300)
+        for i, r in zip(again, redo):
+            res_thr[i] = r
+    for r in res_thr:
+        # a time-out that persists when the case runs alone is the library's: the trace (which holds
+        # the raised error) goes to the specification instead of ending the run with exit 2
+        if r.get("machinery") and all(m.startswith("time-out under load") for m in r["machinery"]):
+            r["machinery"] = []
     cases = inline + threaded
     results = res_inline + res_thr
     mach = [m for r in results for m in r.get("machinery", [])]
@@ -190,7 +204,7 @@ def main():
            "cases_by_delivery_mode": modes, "rejected": len(val.rejects),
            "max_client_threads": max(len(c["nodes"]) for c in cases)}
     return v.finish("model_checking", cov, [
-        "threaded modes use RESPONSE_TIMEOUT = 5 s; a time-out there is a machinery failure (exit 2), never a violation",
+        "threaded modes use RESPONSE_TIMEOUT = 15 s of real time; a case that times out is run again alone (twice at most); a time-out that persists is judged by the specification like any other raised error",
         "event order: recorder lock, frames recorded inside bus.send (under Network.send_lock)",
         "REAL32 values are exactly representable; strings have no trailing NUL / surrogates"])
 
